@@ -20,7 +20,7 @@
 (* Queries are observations: the expected answer is recorded in `last`     *)
 (* and every behaviour is replayed against the real engine.                *)
 (***************************************************************************)
-EXTENDS Integers, Sequences, FiniteSets, TLC
+EXTENDS Integers, Sequences, FiniteSets, SequencesExt, TLC
 
 CONSTANTS Series, Times, Versions,   \* small sets of naturals
           Versioned,                 \* TRUE: (series, ts) is a key and the highest version wins (measure)
@@ -115,7 +115,7 @@ Sat(r, c) ==
     [] c.conn = "and" -> SatLeaf(r, c.c1) /\ SatLeaf(r, c.c2)
     [] c.conn = "or"  -> SatLeaf(r, c.c1) \/ SatLeaf(r, c.c2)
 
-\* q = [lo, hi, series, crit, order ("none"|"time"|"a"), asc, offset, limit (0 = none)]
+\* q = [lo, hi, series, crit, order ("none"|"time"), asc, offset, limit (0 = none)]
 InRange(r, q) == r.t >= q.lo /\ r.t <= q.hi /\ r.s \in q.series
 \* the criteria are evaluated on the stored (winning) row of each key
 Selected(q) == { w \in Resolve({ r \in acked : InRange(r, q) }) : \E r \in w : Sat(r, q.crit) }
@@ -123,14 +123,27 @@ Selected(q) == { w \in Resolve({ r \in acked : InRange(r, q) }) : \E r \in w : S
 \* the replayer accepts either outcome for them
 Ambiguous(q) == { w \in Resolve({ r \in acked : InRange(r, q) }) : (\E r \in w : Sat(r, q.crit)) /\ (\E r \in w : ~Sat(r, q.crit)) }
 
+\* ordering and windowing (C09): the rows of the full result sorted by the sort key (time), ties in any order;
+\* offset/limit select a contiguous window.  The sequence of sort keys of the window is unique even with ties.
+TOf(w) == (CHOOSE r \in w : TRUE).t
+SortedKeys(q) ==
+  LET S == SetToSeq(Selected(q))
+      ks == [i \in 1..Len(S) |-> TOf(S[i])]
+  IN SortSeq(ks, LAMBDA x, y : IF q.asc THEN x < y ELSE x > y)
+Window(seq, off, lim) ==
+  LET hi == IF lim = 0 \/ off + lim > Len(seq) THEN Len(seq) ELSE off + lim
+  IN IF off >= Len(seq) THEN <<>> ELSE SubSeq(seq, off + 1, hi)
+Answer(q) == [q |-> q, groups |-> Selected(q), ambiguous |-> Ambiguous(q),
+              wkeys |-> IF q.order = "none" THEN <<>> ELSE Window(SortedKeys(q), q.offset, q.limit)]
+
 DoQuery(q) ==
   /\ Step /\ acked # {}
-  /\ last' = [op |-> "query", q |-> q, groups |-> Selected(q), ambiguous |-> Ambiguous(q)]
+  /\ last' = [op |-> "query"] @@ Answer(q)
   /\ UNCHANGED <<acked, view, parts, nextId, nextPart, nbatch>>
 
 QueryAll ==              \* every query of the family against the same layout
   /\ Step /\ acked # {} /\ Queries # {} /\ last.op # "queryall"
-  /\ last' = [op |-> "queryall", res |-> { [q |-> q, groups |-> Selected(q), ambiguous |-> Ambiguous(q)] : q \in Queries }]
+  /\ last' = [op |-> "queryall", res |-> { Answer(q) : q \in Queries }]
   /\ UNCHANGED <<acked, view, parts, nextId, nextPart, nbatch>>
 
 Next == \/ \E b \in Batches : Write(b)
